@@ -401,7 +401,7 @@ RELEVANT = {
     "C11": {"chain", "hist"},
     "C12": {"elitism", "size"},
     "C15": {"stage:NBC_Generator", "stage:NBCGeneratorWithLocalMethod"},
-    "C18": {"hib", "schedule"},
+    "C18": {"hib", "schedule", "sprout"},
     "C20": {"best", "evals", "counter"},
 }
 
@@ -464,6 +464,24 @@ def compare(lines, expect, kinds, got, stage_classes=None):
                     out.append({"cat": key[1], "at": j, "kind": k, "deme": key[0], "model": str(fa.get(key))[:400], "impl": str(fb.get(key))[:400]})
         elif g != e:
             out.append({"cat": "other", "at": j, "kind": k, "model": g[:300], "impl": e[:300]})
+    return out
+
+
+def refine_specs(specs):
+    """refine given specs; returns {index: [disagreement records]}"""
+    all_lines, metas, out = [], [], {}
+    for k, spec in enumerate(specs):
+        try:
+            run, lines, expect, kinds = refine_run(spec)
+        except Exception as ex:
+            out[k] = [{"cat": "crash", "model": repr(ex)}]
+            continue
+        metas.append((k, run, len(all_lines), len(lines), expect, kinds))
+        all_lines += lines
+    got = run_driver(all_lines) if all_lines else []
+    for k, run, off, ln, expect, kinds in metas:
+        stage_classes = [[st["cls"] for st in r["stages"]] for r in run.rounds]
+        out[k] = compare(all_lines[off : off + ln], expect, kinds, got[off : off + ln], stage_classes)
     return out
 
 
